@@ -189,17 +189,15 @@ func (lsys *LinkSystem) Fill(lnkCtx LinkContext, lnk datamodel.Link, na datamode
 	tee := io.TeeReader(reader, hasher)
 	// The actual read is then dragged forward by the codec.
 	decodeErr := decoder(na, tee)
-	if decodeErr != nil {
-		// It is important to security to check the hash before returning any other observation about the content,
-		// so, if the decode process returns any error, we have several steps to take before potentially returning it.
-		// First, we try to copy any data remaining that wasn't already pulled through the TeeReader by the decoder,
-		// so that the hasher can reach the end of the stream.
-		// If _that_ errors, return the I/O level error.
-		// We hang onto decodeErr for a while: we can't return that until all the way after we check the hash equality.
-		_, err := io.Copy(hasher, reader)
-		if err != nil {
-			return err
-		}
+	// It is important to security to check the hash before returning any other observation about the content,
+	// so, whether or not the decode process returns an error, we have several steps to take before returning.
+	// First, we copy any data remaining that wasn't already pulled through the TeeReader by the decoder,
+	// so that the hasher reaches the end of the stream: the hash is that of the whole block, also when the
+	// decoder stopped early (a decoder configured with DontParseBeyondEnd, or one that failed midway).
+	// If _that_ errors, return the I/O level error.
+	// We hang onto decodeErr for a while: we can't return that until all the way after we check the hash equality.
+	if _, err := io.Copy(hasher, reader); err != nil {
+		return err
 	}
 	// Compute the hash.
 	// (Then do a bit of a jig to build a link out of it -- because that's what we do the actual hash equality check on.)
